@@ -98,6 +98,8 @@ def _query(res, tier, label, N, ndefs, *groups):
 
 
 def _obligation(res, ob, r):
+    """the last query asked is the obligation `ob`: unsat discharges it, unknown/timeout is inconclusive, sat is a candidate"""
+    res["info"].setdefault("obligation_queries", []).append({"obligation": ob, **res["samples"][-1]})
     res["obligations"] += 1
     res["ob_ids"][ob] = res["ob_ids"].get(ob, 0) + 1
     if r == "unsat":
@@ -363,9 +365,13 @@ def _lexer(E, real, task, res, kf):
         res["discharged"] += 1
     for text in ("true", "false", "null", "true ? false : null", "! true", "[ null , false ]"):
         res["validate"].append(_witness("parse_structure", text))
+    try:
+        states = len(real.lark.parser.parser._parse_table.states)
+    except AttributeError:
+        states = None
     res["info"]["lalr"] = {"log_records": len(real.lalr_log), "conflict_records": real.conflicts[:10],
                            "productions": len(real.prods), "terminals": len(real.terms),
-                           "states": len(getattr(getattr(real.lark.parser.parser, "_parse_table", None), "states", ())) or None}
+                           "states": states}
 
 
 def extra_coverage(results, tier):
@@ -373,6 +379,7 @@ def extra_coverage(results, tier):
     conflicts = sorted({c for i in info for c in i.get("lalr_conflicts", [])})
     return {
         "max_tokens": NMAX[tier],
+        "obligation_queries_at_max_tokens": [q for i in info for q in i.get("obligation_queries", []) if q["N"] == NMAX[tier]],
         "converse_inclusion (real accepts, CEL grammar rejects; reported, not alarmed)":
             sorted((i["converse"] for i in info if "converse" in i), key=lambda c: c["N"]),
         "dump_round_trip_enumeration": sorted((i["dump"] for i in info if "dump" in i), key=lambda d: d["N"]),
